@@ -701,3 +701,6 @@ def run(ch: Checker) -> None:
     ch.check(okp, 'C17.10', su, 'executors started', 'exactly flags.num_workers executors are started', 'ThreadlessPool.setup does not start one executor per index in range(flags.num_workers): the acceptor\'s modulo no longer matches the pool size')
     if n10 == 0:
         raise AnalysisError('anchor vanished: the acceptor no longer indexes its executor_* lists')
+    from .common import sweep_period_check
+    ch.rule('C17.16', 'the idle sweep of the shared loop runs every Threadless.cleanup_inactive_timeout seconds, a positive constant below DEFAULT_TIMEOUT: the bound on how much longer than --timeout an idle connection lives in the shared-loop modes (the per-connection thread tests every select round)', 1)
+    sweep_period_check(ch, 'C17.16')
